@@ -19,7 +19,8 @@ TStart    == IsEvent("Start")    /\ Start(Trace[l].p)
 TEnd      == IsEvent("End")      /\ End(Trace[l].p)
 TErr      == IsEvent("Err")      /\ AddErr(Trace[l].p, Trace[l].c)
 TRecover  == IsEvent("Recover")  /\ Recover
-TRespond  == IsEvent("Respond")  /\ Respond(Trace[l].data, Trace[l].errs)
+TRespond  == IsEvent("Respond")  /\ (\/ Respond(Trace[l].data, Trace[l].errs)
+                                     \/ RespondSerializationFailure(Trace[l].data, Trace[l].errs))
 
 TraceNext == TScenario \/ TStart \/ TEnd \/ TErr \/ TRecover \/ TRespond
 
